@@ -1412,9 +1412,48 @@ fn parse_vars(exprs: &[&Vec<SExpr>], _lsp_hints: &mut LspHints) -> Result<HashMa
             if vars.insert(var_name.into(), var_expr).is_some() {
                 bail_expr!(var_name_expr, "duplicate variable name: {}", var_name);
             }
+            // Variables are resolved lazily at their use sites by following `$name` references, so
+            // a variable that refers to itself, directly or through other variables, never
+            // resolves. The variable that closes a cycle is part of it, so checking the new one
+            // keeps the map acyclic for the `concat` evaluation of later variables.
+            if var_refers_to_itself(var_name, &vars) {
+                bail_expr!(var_name_expr, "variable {} refers to itself", var_name);
+            }
         }
     }
     Ok(vars)
+}
+
+fn push_var_refs<'a>(expr: &'a SExpr, refs: &mut Vec<&'a str>) {
+    match expr {
+        SExpr::Atom(a) => {
+            if let Some(name) = a.t.strip_prefix('$') {
+                refs.push(name);
+            }
+        }
+        SExpr::List(l) => l.t.iter().for_each(|e| push_var_refs(e, refs)),
+    }
+}
+
+fn var_refers_to_itself(var_name: &str, vars: &HashMap<String, SExpr>) -> bool {
+    let mut visited: Vec<&str> = vec![];
+    let mut to_visit: Vec<&str> = vec![];
+    if let Some(expr) = vars.get(var_name) {
+        push_var_refs(expr, &mut to_visit);
+    }
+    while let Some(name) = to_visit.pop() {
+        if name == var_name {
+            return true;
+        }
+        if visited.contains(&name) {
+            continue;
+        }
+        visited.push(name);
+        if let Some(expr) = vars.get(name) {
+            push_var_refs(expr, &mut to_visit);
+        }
+    }
+    false
 }
 
 fn parse_list_var(expr: &Spanned<Vec<SExpr>>, vars: &HashMap<String, SExpr>) -> SExpr {
